@@ -250,46 +250,59 @@ def readPathsTo (acc : List EvalStr) : PM (List EvalStr) := do
   let n ← pSize
   pathsLoop (n + 1) acc
 
+/-- `| implicit outs` -/
+def optImplicitOuts (outs : List EvalStr) : PM (List EvalStr) := do
+  let p ← pPeek
+  if p == PIPE then do pNext; readPathsTo outs else pure outs
+
+/-- `| implicit ins` (a `|` followed by `|` or `@` belongs to the next section). -/
+def optImplicit (ins : List EvalStr) : PM (List EvalStr) := do
+  let p ← pPeek
+  if p == PIPE then do
+    pNext
+    let q ← pPeek
+    if q == PIPE || q == AT then do pBack; pure ins
+    else readPathsTo ins
+  else pure ins
+
+/-- `|| order-only ins` (a `|` followed by `@` belongs to the next section). -/
+def optOrderOnly (ins : List EvalStr) : PM (List EvalStr) := do
+  let p ← pPeek
+  if p == PIPE then do
+    pNext
+    let q ← pPeek
+    if q == AT then do pBack; pure ins
+    else do pExpect PIPE; readPathsTo ins
+  else pure ins
+
+/-- `|@ validation ins` -/
+def optValidation (ins : List EvalStr) : PM (List EvalStr) := do
+  let p ← pPeek
+  if p == PIPE then do
+    pNext
+    pExpect AT
+    readPathsTo ins
+  else pure ins
+
 def readBuild : PM Stmt := do
   let line ← pLine
-  let outs ← readPathsTo []
-  let explicitOuts := outs.length
-  let p ← pPeek
-  let outs ← (if p == PIPE then do pNext; readPathsTo outs else pure outs)
+  let outs0 ← readPathsTo []
+  let outs ← optImplicitOuts outs0
   pExpect COLON
   skipSpaces
   let rule ← readIdent
-  let ins ← readPathsTo []
-  let explicitIns := ins.length
-  -- implicit
-  let p ← pPeek
-  let ins ← (if p == PIPE then do
-      pNext
-      let q ← pPeek
-      if q == PIPE || q == AT then do pBack; pure ins
-      else readPathsTo ins
-    else pure ins)
-  let implicitIns := ins.length - explicitIns
-  -- order-only
-  let p ← pPeek
-  let ins ← (if p == PIPE then do
-      pNext
-      let q ← pPeek
-      if q == AT then do pBack; pure ins
-      else do pExpect PIPE; readPathsTo ins
-    else pure ins)
-  let orderOnlyIns := ins.length - implicitIns - explicitIns
-  -- validation
-  let p ← pPeek
-  let ins ← (if p == PIPE then do
-      pNext
-      pExpect AT
-      readPathsTo ins
-    else pure ins)
-  let validationIns := ins.length - orderOnlyIns - implicitIns - explicitIns
+  let ins0 ← readPathsTo []
+  let ins1 ← optImplicit ins0
+  let ins2 ← optOrderOnly ins1
+  let ins3 ← optValidation ins2
   pExpect NL
   let vars ← readScopedVars (fun _ => true)
-  pure (.build { rule, line, outs, explicitOuts, ins, explicitIns, implicitIns, orderOnlyIns, validationIns, vars })
+  let explicitIns := ins0.length
+  let implicitIns := ins1.length - explicitIns
+  let orderOnlyIns := ins2.length - implicitIns - explicitIns
+  let validationIns := ins3.length - orderOnlyIns - implicitIns - explicitIns
+  pure (.build { rule, line, outs, explicitOuts := outs0.length, ins := ins3, explicitIns, implicitIns,
+                 orderOnlyIns, validationIns, vars })
 
 def readDefault : PM Stmt := do
   let ps ← readPathsTo []
